@@ -258,6 +258,6 @@ def jobs(tier):
     js.append(Job("emitted_text_hier_ios_1sym_small_table", job_text, dict(kind="hier_ios", nsym=1, small_table=True), cost=30, timeout_s=1500))
     for kind in ("mem_vs_signal", "instance_vs_signal", "two_memories"):
         js.append(Job("emitted_text_%s_2sym" % kind, job_text, dict(kind=kind, nsym=2, small_table=False), cost=60, timeout_s=3400))
-        if kind != "mem_vs_signal" or tier == "thorough":      # 3 symbolic names among 15 declarations: > 20 min, thorough only
-            js.append(Job("emitted_text_%s_3sym_small_table" % kind, job_text, dict(kind=kind, nsym=3, small_table=True), cost=90 if kind != "mem_vs_signal" else 2000, timeout_s=7000))
+        if kind != "mem_vs_signal":      # (3 symbolic names among the 15 declarations of mem_vs_signal did not finish in 75 min: not part of any tier)
+            js.append(Job("emitted_text_%s_3sym_small_table" % kind, job_text, dict(kind=kind, nsym=3, small_table=True), cost=90, timeout_s=7000))
     return js
